@@ -444,6 +444,11 @@ impl World {
         let (t, _) = self.poll_checked(sink, i);
         sink.stat("op.poll");
         sink.line(&format!("poll {i}"), &t);
+        self.show_replica(sink, i);
+    }
+    /// the harness's strict replica of subscriber `i` against the model's ghost replica (the object of the C05 invariant)
+    fn show_replica(&mut self, sink: &mut Sink, i: usize) {
+        if let Some(Some(s)) = self.subs.get(i) { let t = fmt_list(&s.replica); sink.line(&format!("replica {i}"), &t); }
     }
 
     pub fn drain(&mut self, sink: &mut Sink, i: usize) {
@@ -607,7 +612,7 @@ impl World {
     /// end of a case: bring every subscriber to quiescence so the final checks run
     pub fn finish(&mut self, sink: &mut Sink) {
         if self.txn.is_some() { self.txn_drop(sink); }
-        for i in self.live_subs() { self.drain(sink, i); }
+        for i in self.live_subs() { self.drain(sink, i); self.show_replica(sink, i); }
     }
 }
 
